@@ -110,6 +110,14 @@ func exhaustionEdges(f *ssa.Function, env *linEnv) (exh []edge, inb []edge) {
 		if !ok || len(b.Succs) != 2 || b.Succs[0] == b.Succs[1] {
 			continue
 		}
+		// (b) "byte not found in the buffer so far": bytes.IndexByte(buf[..], c) < 0
+		// (c) a streaming callee reported more-bytes: err == ErrHdrMoreBytes
+		if cb, ok := iff.Cond.(*ssa.BinOp); ok {
+			if idx, what := notFoundOrMoreBytes(f, bp, cb); idx >= 0 {
+				exh = append(exh, edge{b, idx, Fact{linConst(0), what}})
+				continue
+			}
+		}
 		for idx := 0; idx < 2; idx++ {
 			for _, fc := range env.condFacts(iff.Cond, idx == 0) {
 				cf := fc.L.T[lenKey]
@@ -244,25 +252,56 @@ func ruleX1(c *Ctx) {
 		for _, ed := range exh {
 			nEdges++
 			base := fmt.Sprintf("%s:%s<=0", ssaKey(f), env.pretty(ed.fact.L))
+			if ed.fact.L.isConst() {
+				base = ssaKey(f) + ":" + ed.fact.Src
+			}
 			cnt[base]++
 			key := base
 			if cnt[base] > 1 {
 				key += "#" + itoa(cnt[base])
 			}
-			// forward exploration from the edge target
-			seen := map[*ssa.BasicBlock]bool{}
+			// forward exploration from the edge target; `known` = error values known to be more-bytes on this path
+			type st struct {
+				b *ssa.BasicBlock
+				k string
+			}
+			seen := map[st]bool{}
 			var bad []string
 			exempt, nret := 0, 0
-			var walk func(b *ssa.BasicBlock)
-			walk = func(b *ssa.BasicBlock) {
-				if seen[b] {
+			var walk func(b, from *ssa.BasicBlock, known map[ssa.Value]bool)
+			walk = func(b, from *ssa.BasicBlock, known map[ssa.Value]bool) {
+				// phis taking a known value along the edge we came through are known too
+				nk := known
+				for _, ins := range b.Instrs {
+					ph, ok := ins.(*ssa.Phi)
+					if !ok {
+						break
+					}
+					for i, p := range b.Preds {
+						if p == from && known[ph.Edges[i]] {
+							if len(nk) == len(known) {
+								nk = map[ssa.Value]bool{}
+								for k := range known {
+									nk[k] = true
+								}
+							}
+							nk[ph] = true
+						}
+					}
+				}
+				known = nk
+				key := st{b, fmt.Sprint(len(known))}
+				if seen[key] {
 					return
 				}
-				seen[b] = true
+				seen[key] = true
 				switch t := b.Instrs[len(b.Instrs)-1].(type) {
 				case *ssa.Return:
 					nret++
 					s := returnVerdicts(c, e, f, t, []Fact{ed.fact}, 0)
+					if known[t.Results[errResultIndex(f)]] {
+						s = 1 << uint(mb)
+					}
 					if nocr, _ := c.namedConstInt("ErrHdrNoCR"); ssaKey(f) == "skipCRLF" && s == 1<<uint(nocr) {
 						c.excepted("X1", "skipCRLF:NoCR-at-last-byte", t.Pos(), "named exception: ErrHdrNoCR with one byte left depends only on buf[i] (in range, not CR/LF); the long path returns the same verdict for the same byte")
 						return
@@ -273,7 +312,7 @@ func ruleX1(c *Ctx) {
 				case *ssa.If:
 					if _, setIdx, ok := endOfInputFlag(c, t.Cond); ok {
 						exempt++
-						walk(b.Succs[1-setIdx]) // only the flag-clear edge stays under the rule
+						walk(b.Succs[1-setIdx], b, known) // only the flag-clear edge stays under the rule
 						return
 					}
 					for i, s := range b.Succs {
@@ -283,22 +322,26 @@ func ruleX1(c *Ctx) {
 							// gives Q+1-P<=0; if that is a positive constant the path is infeasible:
 							// the guard covers the exhausted position, the buffer has not ended there
 							sum := g.L.add(ed.fact.L, 1)
-							if sum.isConst() && sum.C > 0 {
+							if sum.isConst() && sum.C > 0 && !ed.fact.L.isConst() {
 								dead = true
 							}
 						}
 						if dead {
 							continue
 						}
-						walk(s)
+						walk(s, b, known)
 					}
 				default:
 					for _, s := range b.Succs {
-						walk(s)
+						walk(s, b, known)
 					}
 				}
 			}
-			walk(ed.from.Succs[ed.idx])
+			init := map[ssa.Value]bool{}
+			if cb, ok := ed.from.Instrs[len(ed.from.Instrs)-1].(*ssa.If).Cond.(*ssa.BinOp); ok && isErrType(cb.X.Type()) != "" && ed.fact.L.isConst() {
+				init[cb.X] = true
+			}
+			walk(ed.from.Succs[ed.idx], ed.from, init)
 			pos := ed.from.Instrs[len(ed.from.Instrs)-1].(*ssa.If).Cond.Pos()
 			if len(bad) > 0 {
 				c.fail("X1", key, pos, "a return reachable from this buffer-exhaustion edge carries a verdict other than more-bytes outside end-of-input mode: "+strings.Join(bad, "; "))
@@ -504,4 +547,47 @@ func condText(c *Ctx, cond ssa.Value, truth bool) string {
 		return neg(x.String())
 	}
 	return neg(cond.Name())
+}
+
+// notFoundOrMoreBytes recognises two further ways of learning that the buffer has ended:
+// a negative bytes.IndexByte result on (a slice of) the buffer, and a callee verdict == ErrHdrMoreBytes.
+// Returns the successor index on which that is the case, or -1.
+func notFoundOrMoreBytes(f *ssa.Function, bp *ssa.Parameter, cb *ssa.BinOp) (int, string) {
+	k, isC := constIntOf(cb.Y)
+	v := cb.X
+	if !isC {
+		return -1, ""
+	}
+	if call, ok := v.(*ssa.Call); ok {
+		if cal := call.Call.StaticCallee(); cal != nil && cal.Pkg != nil && cal.Pkg.Pkg.Path() == "bytes" && cal.Name() == "IndexByte" {
+			if addrRoot(call.Call.Args[0]) == "param:"+bp.Name() || call.Call.Args[0] == ssa.Value(bp) {
+				what := "IndexByte(" + bp.Name() + "[..]) not found"
+				switch {
+				case cb.Op == token.GEQ && k == 0, cb.Op == token.NEQ && k == -1, cb.Op == token.GTR && k == -1:
+					return 1, what
+				case cb.Op == token.LSS && k == 0, cb.Op == token.EQL && k == -1, cb.Op == token.LEQ && k == -1:
+					return 0, what
+				}
+			}
+		}
+	}
+	if isErrType(v.Type()) == "ErrorHdr" && k == 3 { // ErrHdrMoreBytes
+		var call *ssa.Call
+		switch x := v.(type) {
+		case *ssa.Extract:
+			call, _ = x.Tuple.(*ssa.Call)
+		case *ssa.Call:
+			call = x
+		}
+		if call != nil && call.Call.StaticCallee() != nil {
+			what := call.Call.StaticCallee().Name() + "() == more-bytes"
+			if cb.Op == token.EQL {
+				return 0, what
+			}
+			if cb.Op == token.NEQ {
+				return 1, what
+			}
+		}
+	}
+	return -1, ""
 }
